@@ -11,10 +11,11 @@ class FaultLink:
     """The only 'network' the two TCP ends see. Per transmission index a scripted decision:
     ok | drop | dup | delay:<extra> ; after the script is exhausted the path is reliable. Delays are simulated time."""
 
-    def __init__(self, w, name, nxt, script, base):
+    def __init__(self, w, name, nxt, script, base, sync=False):
         self.w, self.name, self.nxt, self.script, self.base = w, name, nxt, dict(script), base
         self.n = 0
         self.fired = {}
+        self.sync = sync      # a path without any delay: the packet is handed over inside put() (direct wiring)
 
     def put(self, p):
         w = self.w
@@ -28,6 +29,11 @@ class FaultLink:
         if kind == 'drop':
             return
         extra = float(act.split(':')[1]) if kind == 'delay' else 0.0
+        if self.sync and kind != 'delay':
+            for _ in range(2 if kind == 'dup' else 1):
+                w.rec('RX', self.name, idx, p.ack if self.name == 'ack' else p.packet_id)
+                self.nxt.put(p)
+            return
         w.env.process(self._deliver(p, self.base + extra, idx))
         if kind == 'dup':
             w.env.process(self._deliver(p, self.base * 2 + 0.01, idx))
@@ -59,7 +65,7 @@ def make_sender(w, case, out):
     pace = case.get('pace')
     msg = case.get('msg', MSS)
     flow = Flow(flow_id=case.get('fid', 1), src='h0', dst='h1', start_time=case.get('start', 0) or None,
-                finish_time=1e12, size=size,
+                finish_time=case.get('finish', 1e12), size=size,
                 arrival_dist=(lambda: pace) if pace else None, size_dist=(lambda: msg) if pace else None)
     if case.get('cc', 'reno') == 'cubic':
         cc = TCPCubic()
